@@ -52,6 +52,16 @@ type Argon2IDHasher struct {
 }
 
 func NewArgon2IDHasher(params *Argon2IDParams) (*Argon2IDHasher, error) {
+	// argon2.IDKey() panics on these, better to refuse the parameter-set when loading the config
+	if params.Time < 1 {
+		return nil, fmt.Errorf("Argon2id parameter-set has invalid time %d, must be > 0", params.Time)
+	}
+	if params.Threads < 1 {
+		return nil, fmt.Errorf("Argon2id parameter-set has invalid threads %d, must be > 0", params.Threads)
+	}
+	if params.Length < 4 {
+		return nil, fmt.Errorf("Argon2id parameter-set has invalid length %d, must be >= 4", params.Length)
+	}
 	return &Argon2IDHasher{Argon2IDParams: *params}, nil
 }
 
